@@ -39,7 +39,6 @@ class Lexer(object):
     t_FALSE = "False"
     t_LBRACK = r"\["
     t_LPAREN = r"\("
-    t_PLAIN_STRING = r"[^\#\:\,\=\(\)\[\]\"\'\r\n]+"
     t_RBRACK = r"\]"
     t_RPAREN = r"\)"
     t_TRUE = "True"
@@ -69,6 +68,13 @@ class Lexer(object):
     @TOKEN(r"[\r\n]+")
     def t_newline(self, t):
         t.lexer.lineno += len(t.value)
+
+    # Defined after the other function rules so that it keeps the lowest priority among them; the string-defined
+    # rules are single delimiter characters (or True/False, which t_ID always matches first) that this pattern excludes
+    @TOKEN(r"[^\#\:\,\=\(\)\[\]\"\'\r\n]+")
+    def t_PLAIN_STRING(self, t):
+        t.value = t.value.rstrip(" \t")
+        return t
 
     def t_error(self, t):
         raise SyntaxError("Illegal character {0} at position {1}".format(t.value[0], t.lexpos))
